@@ -243,7 +243,13 @@ func (g *Gen) make(kind string) *Op {
 		if vk.PH || (g.inSwap(k) && !r.Chance(g.P.SwapTouch)) {
 			return nil
 		}
-		return &Op{Kind: kind, App: vk.App, Key: k, Res: g.askRes(), Node: vk.Node, Prio: vk.Prio, ReqNode: vk.ReqNode, TaskGroup: vk.TG}
+		node := vk.Node
+		if vk.Phase == PhBound && !vk.RMBound && r.Chance(400) {
+			// the scheduler made the allocation and the shim has not bound the pod yet: its updates still come without
+			// a node id, exactly as for a pending ask
+			node = ""
+		}
+		return &Op{Kind: kind, App: vk.App, Key: k, Res: g.askRes(), Node: node, Prio: vk.Prio, ReqNode: vk.ReqNode, TaskGroup: vk.TG}
 	case OpBound:
 		a := r.Pick(g.liveApps())
 		n := r.Pick(g.liveNodes())
